@@ -93,6 +93,18 @@ theorem seq_advances_on_accepting_ack (c : Config) (s : State) (i : In)
   have := (advance_iff c s i).2 ⟨hf, hack, hep, hr, hn⟩
   simp [next, hreset, this]
 
+/-- The comparison is modulo 32, as the 5-bit `next_sequence_number` makes it in the gateware: with sequence number 31
+in force the accepting ACK names 0, it is taken as an acknowledgement (not as a retry request) and the number wraps
+to 0.  (An inlined `sequence_number + 1` is 6 bits wide in Amaranth and never equals the 5-bit field of the ACK: seeded
+change C46c; the harness's wrap cases drive every kind of event across 30, 31, 0, 1.) -/
+example (c : Config) (s : State) (i : In) (hs : s.seq = 31) (hf : s.fsm = .waitAck) (hack : i.ack = true)
+    (hep : i.hsEp = c.ep) (hr : i.retry = false) (hn : i.nextSeq = 0) (hreset : i.epReset = false) :
+    (control c s i).advance = true ∧ (next c s i).seq = 0 ∧ (out c s i).txSeq = 0 := by
+  have hn' : i.nextSeq = (s.seq + 1) % 32 := by simp [hs, hn]
+  have ha := (advance_iff c s i).2 ⟨hf, hack, hep, hr, hn'⟩
+  have := seq_advances_on_accepting_ack c s i hf hack hep hr hn' hreset
+  exact ⟨ha, by simpa [hs] using this, by simp [out, ha, hs]⟩
+
 /-- 2. A retry request (Retry bit, or a non-advancing sequence number) restarts the same packet:
 same buffer, contents, fill count, sequence number; a data packet from word 0, a ZLP by a new strobe
 announced with the same sequence number. -/
